@@ -22,6 +22,7 @@ import (
 //   hash h                                             -> root hash
 //   wd h           (WriteDirty(db); MustHash())        -> root hash
 //   load h         (NewTrie(nil, db).Load(db, hash h)) -> `ok <view of the loaded trie>` | err
+//   lput h k v     (Load as above, SetVersion(h's), Put(k, v)) -> `ok <root hash> <entries>` | err
 //   gfd h k        (GetFromDB(db, hash h, k))          -> value hex | nil | err
 // view = `<root hash> <sorted entries> [c<keyToChild>:<entries of that child>|...]`
 // A Go panic inside an op is the observable `panic` and ends the case.
@@ -166,6 +167,18 @@ func (s *c04State) op(op string) string {
 			return "err"
 		}
 		return "ok " + c04View(lt)
+	case f[0] == "lput" && len(f) == 4:
+		root := t.MustHash()
+		lt := NewTrie(nil, s.db)
+		if err := lt.Load(s.db, root); err != nil {
+			return "err"
+		}
+		lt.SetVersion(t.version)
+		if err := lt.Put(vhUnhex(f[2]), vhUnhex(f[3])); err != nil {
+			return "err"
+		}
+		h := lt.MustHash()
+		return "ok " + vhHex(h[:]) + " " + c04Entries(lt.Entries())
 	case f[0] == "gfd" && len(f) == 3:
 		root := t.MustHash()
 		v, err := GetFromDB(s.db, root, vhUnhex(f[2]))
@@ -289,6 +302,10 @@ func (g *c04Gen) mutate(ops []string, h int, n int) []string {
 
 func (g *c04Gen) reads(ops []string, h int) []string {
 	ops = append(ops, fmt.Sprintf("load h%d", h))
+	if g.r.Chance(1, 2) {
+		// modify the reloaded state: its nodes must hash as the in-memory ones do
+		ops = append(ops, fmt.Sprintf("lput h%d %s %s", h, vhHex(g.probe()), vhHex(g.val())))
+	}
 	seen := map[string]bool{}
 	add := func(k []byte) {
 		if !seen[string(k)] {
